@@ -2554,8 +2554,12 @@ func regBSIScenarios() {
 			base := uint64(r.Intn(3)) * 65536
 			n := uint64(100000 + r.Intn(3000))
 			v := big.NewInt(int64(1<<20 + r.Intn(1<<20)))
+			regime := uint64(r.Intn(2)) // 1 = non-negative values only; 0 = mixed signs (a 64-plane index)
+			if regime == 0 && r.Bool() {
+				v.Neg(v)
+			}
 			steps := []Step{
-				{Op: "bsinew32", S: []int{i}, A: []uint64{0, 0, 0, 1}},
+				{Op: "bsinew32", S: []int{i}, A: []uint64{0, 0, 0, regime}},
 				{Op: "bsisetmany32", S: []int{i}, A: append([]uint64{csRun, base, n, r.U64()}, encBig(v)...)},
 				{Op: "bsifill32", S: []int{i}, A: []uint64{csSparse, base, 500, r.U64(), 1, 21, r.U64()}},
 				{Op: "bsibatch32", S: []int{i}, A: []uint64{0, uint64(bsiPars[r.Intn(len(bsiPars))]), 4, 200, r.U64(), csNil, 0, 0, 0}},
